@@ -74,7 +74,7 @@ class PureCheck:
             # family of inputs)
             step = self.warm_every if tier == "quick" else max(2, self.warm_every - 1)
             wr = common.rng(self.pid + ":warm")
-            inputs += [dict(inp, warm=wr.randrange(1, 256)) for inp in inputs if wr.random() * step < 1]
+            inputs += [dict(inp, warm=wr.randrange(1, 1024)) for inp in inputs if wr.random() * step < 1]
         if common.LIGHT and len(inputs) > 2500:
             lr = common.rng(self.pid + ":light")
             inputs = lr.sample(inputs, 2500)
